@@ -17,7 +17,9 @@ def header_version(coin, cls, rng):
         return rng.choice([1, 2, t - 1])
     if cls == 1:
         return t
-    return rng.choice([t + 1, t | 0x100000, 0x7fffffff, t + 0x10000])
+    # "at or above the activation version" is the whole range up to 2^32-1, whatever the other version bits say
+    return rng.choice([t + 1, t | 0x100000, 0x7fffffff, t + 0x10000, 0xffffffff, (t | 0xffff) + 1, (t & ~0x1ff) + 0x200,
+                       rng.randrange(t + 1, 2 ** 32), rng.randrange(t + 1, 2 ** 32), rng.randrange(t + 1, t + 0x1000)])
 
 
 def mk_tx(shape, rng, sizes=REP, cb=False, idx=0):
